@@ -2,4 +2,5 @@ SPECIFICATION Spec
 CONSTANTS MaxLen = 4
  Profile = "opt"
  EnvSet = "clean"
+ ExtraCheck <- NoExtra
 CHECK_DEADLOCK FALSE
